@@ -73,6 +73,27 @@ def expr_kind(e, field_kinds, cls, depth=0) -> str | None:
     return None
 
 
+def expr_aliases_state(e, depth=0) -> bool:
+    """The value may share memory with a self.<field> array (from_numpy / .to / views keep the storage)."""
+    if depth > 6:
+        return False
+    if self_attr(e):
+        return True
+    if isinstance(e, ast.Call):
+        f = e.func
+        txt = norm_text(f)
+        if txt in ("torch.from_numpy", "torch.as_tensor", "np.asarray", "numpy.asarray", "np.asanyarray") and e.args:
+            return expr_aliases_state(e.args[0], depth + 1)
+        if isinstance(f, ast.Attribute) and f.attr in ("to", "cpu", "detach", "numpy", "view", "reshape", "squeeze", "unsqueeze", "contiguous", "float", "double", "type", "astype", "ravel", "flatten"):
+            if f.attr == "astype" and not any(k.arg == "copy" and isinstance(k.value, ast.Constant) and k.value.value is False for k in e.keywords):
+                return False
+            return expr_aliases_state(f.value, depth + 1)
+        return False
+    if isinstance(e, ast.Subscript):
+        return expr_aliases_state(e.value, depth + 1)
+    return False
+
+
 def reaching_defs(cfg, var: str):
     """node -> set of CFG nodes whose (plain) assignment to ``var`` may reach the node's entry."""
     def defines(n):
@@ -194,10 +215,24 @@ def check(index, ctx):
     for a in sorted(set(reset_st) - mutable):
         ok, why = reset_restores(a)
         ctx.require(ok or a not in init_expr, "R1", f"_NashMTLWeighting.{a} (reset only)", why, why, reset.loc(), nontrivial=False)
-    # delegation
+    # delegation (or re-construction with the very same constructor arguments)
     r = outer.lookup("reset")
     deleg = r is not None and any(isinstance(n, ast.Call) and norm_text(n.func) == "self.weighting.reset" for n in ast.walk(r[1].node))
-    ctx.require(deleg, "R1", "NashMTL.reset delegates to the weighting", "self.weighting.reset()", "NashMTL.reset does not call self.weighting.reset()", outer.loc())
+    rebuilt_ok, rebuilt_why = False, ""
+    if r is not None and not deleg:
+        ctor_params = [a.arg for a in init.node.args.args[1:]]
+        for n in ast.walk(r[1].node):
+            if isinstance(n, ast.Call) and isinstance(n.func, ast.Name) and n.func.id == cls.name:
+                names = []
+                for a in n.args:
+                    names.append(a.attr if isinstance(a, ast.Attribute) else None)
+                kw = {k.arg: (k.value.attr if isinstance(k.value, ast.Attribute) else None) for k in n.keywords}
+                bad = [(p, got) for p, got in zip(ctor_params, names) if got != p] + [(k2, v) for k2, v in kw.items() if v != k2]
+                covered = set(ctor_params[:len(names)]) | set(kw)
+                rebuilt_ok = not bad and covered == set(ctor_params)
+                rebuilt_why = f"re-construction passes {bad[0][1]!r} for parameter {bad[0][0]!r}" if bad else ("" if rebuilt_ok else "re-construction does not pass every constructor parameter")
+    ctx.require(deleg or rebuilt_ok, "R1", "NashMTL.reset restores the weighting", "self.weighting.reset()" if deleg else "fresh weighting with the same parameters",
+                "NashMTL.reset neither calls self.weighting.reset() nor rebuilds the weighting with the same constructor arguments" + (": " + rebuilt_why if rebuilt_why else ""), outer.loc())
     ctx.floor("state fields of _NashMTLWeighting", len(mutable), 4)
 
     # ---------------------------------------------------------------- R2 schedule
@@ -279,5 +314,23 @@ def check(index, ctx):
                                     f"`{x.id}` reaches `{norm_text(b)}` (other operand: the input tensor) as {bad}: numpy array @ torch tensor raises TypeError", fwd.loc(b),
                                     derivation=kinds)
     ctx.floor("weights·matrix sites in forward", n_sites, 1)
+    # in-place operations on a value that may share memory with stored state (stored weights must be reused unchanged)
+    for n in fcfg.stmt_nodes():
+        a = n.ast
+        tgt = None
+        if n.kind == "stmt" and isinstance(a, ast.AugAssign) and isinstance(a.target, (ast.Name, ast.Subscript)):
+            tgt = a.target.id if isinstance(a.target, ast.Name) else (a.target.value.id if isinstance(a.target.value, ast.Name) else None)
+        elif n.kind == "stmt" and isinstance(a, ast.Assign) and isinstance(a.targets[0], ast.Subscript) and isinstance(a.targets[0].value, ast.Name):
+            tgt = a.targets[0].value.id
+        elif n.kind == "stmt" and isinstance(a, ast.Expr) and isinstance(a.value, ast.Call) and isinstance(a.value.func, ast.Attribute) and a.value.func.attr.endswith("_") \
+                and not a.value.func.attr.startswith("_") and isinstance(a.value.func.value, ast.Name):
+            tgt = a.value.func.value.id
+        if tgt is None or tgt in params_t:
+            continue
+        rd = reaching_defs(fcfg, tgt)[n]
+        shared = [d for d in rd if isinstance(d.ast, ast.Assign) and expr_aliases_state(d.ast.value)]
+        ctx.require(not shared, "R2", f"forward: `{norm_text(a)}` does not write into stored state", "target is a freshly computed value on every reaching definition",
+                    f"`{norm_text(a)}` updates `{tgt}` in place, and `{tgt}` may share memory with stored state via `{norm_text(shared[0].ast) if shared else ''}` "
+                    "(torch.from_numpy / .to() return views when no conversion is needed): the stored weights would not be reused unchanged", fwd.loc(a))
     ctx.assumptions += ["kinds are inferred from construction forms (torch.* -> tensor, np.* -> ndarray, .numpy() -> ndarray)",
                         "||result|| <= max_norm and solver convergence are numerical and NOT decided"]
